@@ -13,7 +13,7 @@
 
    STATUS (every theorem below is proved; Print Assumptions: closed)
      C08_parse_render_partial       clause 1, every segment kind incl. SEARCH, both notations;
-                                    only guard [wf] (F21 is the one finding inside it)
+                                    only guard [wf] (no finding inside it since the repair of F21's parser half)
      C08_parse_render_auto_partial  the same through separator inference (exclusion guard)
      C08_int_of_str                 int(str(n)) = n for all integers
      C08_canonical_partial / C08_canonical_auto_partial / C08_fixpoint_partial
@@ -25,7 +25,8 @@
                                     clause 4 for a tail written after a separator, when pop()
                                     cuts a canonical tail or rebuilds (no suffix match)
      C08_*_ok                       side conditions over the regenerated tables
-     C08_parse_render_F21_refuted   finding F21 (quote-wrapped search term)
+     C08_parse_render_F21           (Example) finding F21, parser half, repaired: escaped / regex quote-wrapped terms
+     C08_canon_F21_refuted          finding F21, printer half (str() of a quote-wrapped term written inside the other quotes)
      C08_eq_iff_F23_refuted         finding F23 (__eq__ and an escaped dot)
    NOT proved: clause 4 for a tail that carries its own demarcation ([0], [a=b],
    (collector), [&a]) and for accidental suffix matches of a non-canonical tail;
@@ -37,8 +38,9 @@ Open Scope string_scope.
 
 (* ---- clause 1: writing then parsing gives back the segments ---- *)
 (* Every segment kind, both notations, any length, any text.  The only guard
-   is [wf]; its clauses name what the notation cannot express, plus the one
-   listed finding F21 ([quote_wrapped], hence "_partial"). *)
+   is [wf]; its clauses name what the notation cannot express (hence
+   "_partial"); the former F21 clause [quote_wrapped] is gone since the parser
+   repair (C08_parse_render_F21). *)
 Theorem C08_parse_render_partial :
   forall (sp : sep) (l : list sseg),
     wf sp l = true -> parse (Forced sp) true (render_ref sp l) = Ok (segs_of l).
@@ -77,7 +79,7 @@ Proof. exact key_specials_cover. Qed.
    [canon sp' text] = str() of YAMLPath(text) with the separator set to sp'.
    Guards: [wfc] (= [wf] + what str() cannot re-express: a back-slash right
    before an escapable symbol, "*" in a quoted key, a regex with all ten
-   delimiter candidates; F21 inside); [dot_text_ok] = the property's own
+   delimiter candidates; the printer half of F21 inside); [dot_text_ok] = the property's own
    exclusion; a canonical dot text that is blank to str.strip() is the empty
    path (only a single key made of tabs / line feeds: not escapable). ---- *)
 Theorem C08_canonical_partial :
@@ -273,15 +275,39 @@ Example C08_append_pop_instances :
 Proof. vm_compute. split; reflexivity. Qed.
 
 (* ---- findings ---- *)
-(* F21: a search term that is one quote character, written with the documented
-   back-slash escape, is undemarcated to nothing. *)
-Theorem C08_parse_render_F21_refuted :
+(* F21, the parser half -- REPAIRED (fix in YAMLPath._parse_path: the term is
+   undemarcated only when a demarcating quote opened it): a search term that is
+   one quote character, or starts and ends with the same quote character,
+   written with the documented back-slash escape or as a regular expression,
+   is read back as it is; a term demarcated by quotes is still stripped of
+   them.  [quote_wrapped] is no longer part of [wf]. *)
+Example C08_parse_render_F21 :
+  let l1 := [((Some TSearch, ASearch false MEquals "a" "'"), plain_style)] in
+  let l2 := [((Some TSearch, ASearch false MEquals "a" "'x'"), plain_style)] in
+  wf Dot l1 = true /\ render_ref Dot l1 = "[a=\']"
+  /\ parse (Forced Dot) true (render_ref Dot l1) = Ok (segs_of l1)
+  /\ wf Dot l2 = true /\ parse (Forced Dot) true (render_ref Dot l2) = Ok (segs_of l2)
+  /\ parse Auto true "[a=~/'x'/]" = Ok [(Some TSearch, ASearch false MRegex "a" "'x'")]
+  /\ parse Auto true "[a='x']" = Ok [(Some TSearch, ASearch false MEquals "a" "x")]
+  /\ parse Auto true "[a='x\'']" = Ok [(Some TSearch, ASearch false MEquals "a" "x'")]
+  /\ parse Auto true "[' '=\'x\']" = Ok [(Some TSearch, ASearch false MEquals "' '" "'x'")].
+Proof. vm_compute. repeat split; reflexivity. Qed.
+
+(* F21, what is left (the printer half): SearchTerms.__str__ does not escape
+   quote characters, so a quote-wrapped term that reached the segments without
+   back-slashes (written inside the OTHER quote pair) is printed bare and
+   re-parses stripped.  [wfc] keeps the guard for the clauses through str(). *)
+Theorem C08_canon_F21_refuted :
   exists (sp : sep) (l : list sseg),
-    l = [((Some TSearch, ASearch false MEquals "a" "'"), plain_style)]
-    /\ render_ref sp l = "[a=\']"
-    /\ parse (Forced sp) true (render_ref sp l) = Ok [(Some TSearch, ASearch false MEquals "a" "")]
-    /\ parse (Forced sp) true (render_ref sp l) <> Ok (segs_of l).
-Proof. exact F21_witness. Qed.
+    l = [((Some TSearch, ASearch false MEquals "a" "'x'"), plain_style)]
+    /\ wf sp l = true /\ wfc sp l = false
+    /\ render_ref sp l = "[a=\'x\']"
+    /\ parse (Forced sp) true (render_ref sp l) = Ok (segs_of l)
+    /\ path_str (Forced sp) (render_ref sp l) = Ok "[a=\'x\']"
+    /\ path_str (Forced sp) """a""[b=""'x'""]" = Ok "a[b='x']"
+    /\ parse (Forced sp) true """a""[b=""'x'""]" = Ok [(Some TKey, AStr "a"); (Some TSearch, ASearch false MEquals "b" "'x'")]
+    /\ parse (Forced sp) true "a[b='x']" = Ok [(Some TKey, AStr "a"); (Some TSearch, ASearch false MEquals "b" "x")].
+Proof. exact F21_canon_witness. Qed.
 
 (* F23: two paths with the same segments (the single key "a.b") that are not ==. *)
 Theorem C08_eq_iff_F23_refuted :
